@@ -104,6 +104,13 @@ pub enum CircuitBuilderError {
     /// Invalid dimension: expected a specific number of elements.
     #[error("Invalid dimension: expected {expected}, got {actual}")]
     InvalidDimension { expected: usize, actual: usize },
+
+    /// A `HornerAcc` step whose accumulator is not the output of the directly preceding
+    /// `HornerAcc` step (or the zero constant, at the start of a run of steps).
+    #[error(
+        "HornerAcc step writing witness {out} is not chained: its accumulator must be the previous HornerAcc step's output, or the zero constant at the start of a chain"
+    )]
+    HornerAccNotChained { out: u32 },
 }
 
 #[cfg(test)]
